@@ -176,6 +176,12 @@ def run(pid, tier):
         ctx.cov["states"] += len(mc_cases); ctx.cov["transitions"] += len(mc_cases)
         ctx.cov["model_cases"] = len(mc_cases)
         if r.error or not mc_cases: ctx.infra_fail("LowLevelMC: " + (r.error or "no cases")[:800])
+    if pid == "C01":
+        cfg = open(tlc.SPEC + "/WireMC_sender.cfg").read()
+        if not thorough: cfg = cfg.replace("MaxAdd = 4", "MaxAdd = 3")
+        r = tlc.run("WireMC.tla", "_s.cfg", workers=16, timeout=2400, extra_files={"_s.cfg": cfg}, xmx="16g")
+        ctx.add_tlc("Wire sender (batching / flush / capacity), bytes decoded by the independent decoder", r); tlc.cleanup(r)
+        if r.violation or r.error: ctx.infra_fail("WireMC sender: %s %s" % (r.violation, (r.error or "")[:500]))
     if pid in ("C01", "C18"):
         r = tlc.run("BytesMC.tla", "BytesMC.cfg", workers=4, timeout=600)
         ctx.add_tlc("BytesMC", r, note="framing operators: ASSUMEs over the escape alphabet"); tlc.cleanup(r)
